@@ -147,6 +147,45 @@ def check_ans_fixed_point(ctx, F):
                 m = pow2.p2(o)
                 ao = pow2.all_ones(m) if m is not None else None
                 mod.add(sym.affine_str(ao) if ao is not None else '?')
+    # the divisor of the update is the symbol's probability itself
+    def plain_probability(t):
+        """'plain' if t is the model's probability up to conversions, 'derived' if it is computed from it, None otherwise."""
+        is_model = lambda x: isinstance(x, tuple) and x and x[0] == 'call' and ('EncoderModel::' in str(x[1]) or 'DecoderModel::' in str(x[1]))
+        if not sym.contains(t, is_model):
+            return None
+        u = t
+        while isinstance(u, tuple) and u:
+            if u[0] in ('cast',):
+                u = u[2]
+            elif u[0] == 'unwrap':
+                u = u[1]
+            elif u[0] in ('proj', 'payload'):
+                u = u[1]
+            elif u[0] == 'call' and isinstance(u[1], str) and u[1].endswith(('::get', '::into', '::ok_or_else', '::ok_or', '::unwrap', '::expect', 'NonZeroBitArray::get')) and u[2]:
+                u = u[2][0]
+            else:
+                break
+        return 'plain' if is_model(u) else 'derived'
+    divisors = set()
+    for r in pe or []:
+        if r.end != 'return' or rules.ret_shape(r.ret)[0] != 'Ok':
+            continue
+        t = eve.final_read(r, STATE)
+        for x in sym.subterms(t):
+            if isinstance(x, tuple) and x and x[0] == 'bin' and x[1].split('.')[0] in ('Div', 'Rem') and x[2] == ('in', STATE) or (isinstance(x, tuple) and x and x[0] == 'bin' and x[1].split('.')[0] in ('Div', 'Rem') and isinstance(x[2], tuple) and x[2][:2] == ('bin', 'Shr') and x[2][2] == ('in', STATE)):
+                divisors.add(('encode', plain_probability(x[3]), sym.show(x[3])[:70]))
+    for r in pd or []:
+        if r.end != 'return' or rules.ret_shape(r.ret)[0] != 'Ok':
+            continue
+        t = evd.final_read(r, STATE)
+        for x in sym.subterms(t):
+            if isinstance(x, tuple) and x and x[0] == 'bin' and x[1].split('.')[0] == 'Mul':
+                for a, b2 in ((x[2], x[3]), (x[3], x[2])):
+                    if isinstance(a, tuple) and a[:2] == ('bin', 'Shr') and a[2] == ('in', STATE):
+                        divisors.add(('decode', plain_probability(b2), sym.show(b2)[:70]))
+    derived = sorted(d for d in divisors if d[1] == 'derived')
+    if derived:
+        return ctx.bad('R10', role, ANS, 'the %s step scales the state by %s, a value computed from the symbol\'s probability rather than the probability itself: the format divides (multiplies) by the probability; a mirrored change of both steps still alters every stream and wastes the difference' % (derived[0][0], derived[0][2]), key=key, loc=rules.loc(enc))
     if not shl or not shr or not mod:
         return ctx.unresolved('R10', role, ANS, 'fixed-point operations not recognised (encode << %s, decode >> %s, quantile modulus %s)' % (sorted(shl), sorted(shr), sorted(mod)), key=key)
     if '?' in shl | shr | mod:
@@ -253,6 +292,9 @@ def run(ctx):
     c04.check_same_source(ctx, F)        # chunks of the unmodified state, least significant word first
     import props.C12 as c12
     c12.check_width_conserved(ctx, F)    # the format's update: the new width is the old width scaled by the symbol's share, nothing else
+    if ctx.tier == 'thorough':
+        from vlib import witness
+        witness.run(ctx, 'C06')          # the preset aliases keep their documented (Word, State, PRECISION): a const assertion the compiler evaluates
     ctx.assume('the constants are those of the published format: rANS with renormalisation interval [2^(S-W), 2^S), PRECISION-bit fixed point; carry-propagating range coder with range >= 2^(S-W), sealing point lower + 2^(S-W) - 1')
     return {
         'level': 'other',
